@@ -126,6 +126,9 @@ pub fn programs() -> Vec<Prog> {
                 shipped::ix_row::<crate::HxIdl, sets::SetNested>(),
                 shipped::ix_row::<crate::HxIdl, sets::SetInit>(),
                 shipped::ix_row::<crate::HxIdl, sets::SetOne>(),
+                shipped::ix_row::<crate::HxIdl, sets::PdaD1>(),
+                shipped::ix_row::<crate::HxIdl, sets::PdaD2>(),
+                shipped::ix_row::<crate::HxIdl, sets::PdaD3>(),
                 shipped::ix_row::<crate::HxIdl, sets::SetPass>(),
                 shipped::ix_row::<crate::HxIdl, sets::SetManyMid>(),
                 shipped::ix_row::<crate::HxIdl, sets::SetRestMid>(),
@@ -197,6 +200,9 @@ shipped::dummy_struct!(sets::EmptyClientAccounts {});
 shipped::dummy_struct!(sets::SetNestedClientAccounts { head, pair, boxed, one, tup, none, bx });
 shipped::dummy_struct!(sets::SetInitClientAccounts { funder, owner, sys, zc, un, existing, seeded, borsh, val });
 shipped::dummy_struct!(sets::SetOneClientAccounts { only });
+shipped::dummy_struct!(sets::PdaD1ClientAccounts { payer, market, mint, owner, v1, v2, v3, vmix, vnone });
+shipped::dummy_struct!(sets::PdaD2ClientAccounts { payer, mint, market, owner, g, top });
+shipped::dummy_struct!(sets::PdaD3ClientAccounts { payer, mint, vault, h, again });
 shipped::dummy_struct!(reuse::TouchVaultClientAccounts { owner, vault });
 shipped::dummy_struct!(reuse::TouchLimitsClientAccounts { owner, limits, other_limits });
 shipped::dummy_struct!(reuse::TouchBookClientAccounts { book, limits });
@@ -315,11 +321,21 @@ fn show_codama_accounts(ix: &serde_json::Value) -> (String, String) {
             }
             _ => "-".to_string(),
         };
+        // accounts a PDA default value looks its account seeds up in, in seed order
+        let mut seed_accounts = vec![];
+        if jget(a, &["defaultValue", "kind"]).as_str() == Some("pdaValueNode") {
+            for sd in jget(a, &["defaultValue", "seeds"]).as_array().cloned().unwrap_or_default() {
+                if jget(&sd, &["value", "kind"]).as_str() == Some("accountValueNode") {
+                    seed_accounts.push(jget(&sd, &["value", "name"]).as_str().unwrap_or("?").to_string());
+                }
+            }
+        }
         format!(
-            "{name}:{}{}{}:{addr}",
+            "{name}:{}{}{}:{addr}{}",
             signer as u8,
             a["isWritable"].as_bool().unwrap_or(false) as u8,
-            a["isOptional"].as_bool().unwrap_or(false) as u8
+            a["isOptional"].as_bool().unwrap_or(false) as u8,
+            if seed_accounts.is_empty() { String::new() } else { format!(":{}", seed_accounts.join(",")) }
         )
     };
     let join = |v: Vec<String>| if v.is_empty() { "-".to_string() } else { v.join(" ") };
@@ -595,7 +611,22 @@ fn exec(env: &mut Env, rec: &mut Recorder, line: &str) -> String {
                     leaves(idl, &ix.definition.account_set, &mut vec![], &mut want);
                     let got_all: Vec<String> = [accts.as_str(), rems.as_str()].iter().filter(|s| **s != "-").flat_map(|s| s.split(' ')).map(|s| s.to_string()).collect();
                     if want != got_all {
-                        rec.fail("codama_accounts_differ_from_idl", &format!("{line}: idl {want:?} codama {got_all:?}"));
+                        let strip = |v: &Vec<String>| v.iter().map(|s| s.splitn(4, ':').take(3).collect::<Vec<_>>().join(":")).collect::<Vec<_>>();
+                        rec.fail(
+                            if strip(&want) == strip(&got_all) { "codama_pda_seed_resolves_to_wrong_account" } else { "codama_accounts_differ_from_idl" },
+                            &format!("{line}: idl {want:?} codama {got_all:?}"),
+                        );
+                    }
+                    // every account a PDA derives from must be an account of this very instruction
+                    let names: Vec<&str> = got_all.iter().filter_map(|s| s.split(':').next()).collect();
+                    for s in &got_all {
+                        if let Some(seeds) = s.splitn(4, ':').nth(3) {
+                            for sa in seeds.split(',') {
+                                if !names.contains(&sa) {
+                                    rec.fail("codama_pda_seed_names_unknown_account", &format!("{line}: {s}"));
+                                }
+                            }
+                        }
                     }
                     if dhex != hex(&idl_disc) || dsize != idl_disc.len() {
                         rec.fail("codama_discriminant_differs", &format!("{line}: codama {dhex}/{dsize}"));
@@ -792,13 +823,32 @@ fn arg_kind(def: &IdlDefinition, source: &str) -> &'static str {
 fn leaves(def: &IdlDefinition, s: &IdlAccountSetDef, path: &mut Vec<String>, out: &mut Vec<String>) {
     use codama_nodes::CamelCaseString;
     let show = |x: &star_frame::star_frame_idl::account_set::IdlSingleAccountSet, path: &Vec<String>| {
+        // independent resolver: an account-path seed names a SIBLING of the seeded account, i.e. it is
+        // resolved against the seeded account's own parent path; `:path` is taken from the root
+        let mut seed_accounts = vec![];
+        if let (None, Some(fs)) = (&x.address, &x.seeds) {
+            let parent = &path[..path.len().saturating_sub(1)];
+            for sd in &fs.seeds {
+                if let star_frame::star_frame_idl::seeds::IdlFindSeed::AccountPath(p) = sd {
+                    seed_accounts.push(match p.strip_prefix(':') {
+                        Some(rooted) => CamelCaseString::new(rooted).to_string(),
+                        None => {
+                            let mut full: Vec<String> = parent.to_vec();
+                            full.push(p.clone());
+                            CamelCaseString::new(full.join(" ")).to_string()
+                        }
+                    });
+                }
+            }
+        }
         format!(
-            "{}:{}{}{}:{}",
+            "{}:{}{}{}:{}{}",
             CamelCaseString::new(path.join(" ")).to_string(),
             x.signer as u8,
             x.writable as u8,
             x.optional as u8,
-            x.address.map(|a| hex(a.as_ref())).unwrap_or_else(|| "-".into())
+            x.address.map(|a| hex(a.as_ref())).unwrap_or_else(|| "-".into()),
+            if seed_accounts.is_empty() { String::new() } else { format!(":{}", seed_accounts.join(",")) }
         )
     };
     match s {
@@ -901,12 +951,13 @@ pub fn run(args: &Args) {
         for (source, ix) in &idl.instructions {
             go(&mut env, &mut rec, format!("disc {pn} ix {source} {}", hex(&ix.discriminant)));
             let set = sx::show_idl_set(&idl, &ix.definition.account_set, 0);
+            let set_seeds = sx::show_idl_set_with(&idl, &ix.definition.account_set, 0, true);
             for present in [false, true] {
                 let client = env.prog(pn).unwrap().ixs.iter().find(|r| &r.source == source).map(|r| (r.metas)(present)).unwrap_or_default();
                 let cl = if client.is_empty() { "()".to_string() } else { format!("({})", sx::show_slots(false, &client)) };
                 go(&mut env, &mut rec, format!("flat {pn} {source} {pid} {} {set} {cl}", present as u8));
             }
-            go(&mut env, &mut rec, format!("lower {pn} {source} {} {} {set}", hex(&ix.discriminant), arg_kind(&idl, &ix.definition.type_id.source)));
+            go(&mut env, &mut rec, format!("lower {pn} {source} {} {} {set_seeds}", hex(&ix.discriminant), arg_kind(&idl, &ix.definition.type_id.source)));
         }
         for (source, ac) in &idl.accounts {
             go(&mut env, &mut rec, format!("disc {pn} acct {source} {}", hex(&ac.discriminant)));
